@@ -9,9 +9,16 @@ CFG = {
              "k < encoded length and Ok with exactly surface_bytes otherwise - for ALL write-size lists and "
              "instantiated with the writer loops of every family (C10); (3) every scalar quantiser of "
              "color/formats.rs (n1..n16, s8/s16 incl. the `norm + 1` overflow, xr10, yuv8/10/16, the 11/10-bit float "
-             "packer; R9G9B9E5 in part) stays within its bit field for EVERY input incl. NaN and +-inf, so the "
+             "packer) stays within its bit field for EVERY input incl. NaN and +-inf, so the "
              "packing shifts of B5G6R5, B5G5R5A1, B4G4R4A4, R10G10B10A2, XR_BIAS, Y410, R11G11B10 and P010 cannot "
-             "overflow; (4) the only data-dependent loop of the block encoders (bcn_util::refine_endpoints) runs at "
+             "overflow; (3b) at the BIT level, on binary32 bit patterns with a software binary32 and NO assumption on "
+             "the rounding: rgb9995f::from_f32 (R9G9B9E5) for every triple of patterns (any NaN, +-inf, negatives, "
+             "both zeros, subnormals, huge) trips none of its five debug_assert!s nor an i8 overflow, has r/g/b "
+             "mantissas <= 511 and exponent <= 31 and returns exactly the 9+9+9+5 packing (first pass <= 512, second "
+             "pass <= 256, exponent 31 <= 511 so exp never becomes 32; multiplication by two_powi proved exact in the "
+             "normal range; the zero f32::max returns on a -0.0/+0.0 tie proved irrelevant); n1/n2/n4/n5/n6/n10::from_f32 and s8::from_uf32 stay <= MAX for every pattern and "
+             "B5G6R5, B5G5R5A1, B4G4R4A4, A4B4G4R4, R10G10B10A2, R8G8B8A8_SNORM encode every pixel to exactly the "
+             "field packing; (4) the only data-dependent loop of the block encoders (bcn_util::refine_endpoints) runs at "
              "most max_iter <= 10 times at every quality, whatever the float comparison does; (5) empty images give "
              "Ok and zero bytes in every family (incl. the repaired bi-planar path) even with a writer that accepts "
              "nothing. EXPLORED, not proved: panic- and hang-freedom of the float bodies of the BC1/BC4/BC7 block "
@@ -22,8 +29,13 @@ CFG = {
     "note": "Trusted: Lean kernel + propext/Classical.choice/Quot.sound; the hand-written model EncTotal.lean (format "
             "table, trace shape, quantiser shapes read from src/color/formats.rs) and EncLen.lean; the correspondence "
             "check (harness FaultWriter, watchdog, driver, diff) and its generator; agreement of code and model off "
-            "the generated cases; binary32/binary64 rounding being monotone and exact on the integers and "
-            "half-integers named in the theorems; std's write_all contract.",
+            "the generated cases; for the abstract (extended-real) quantiser theorems binary32/binary64 rounding "
+            "being monotone and exact on the integers and half-integers named there - discharged for every binary32 "
+            "quantiser by the bit-level theorems (quantiser_range_shared_exp, quantiser_range_unorm_bits, "
+            "packed_formats_fit_bits), still assumed for s16::from_uf32 (binary64); for the bit-level theorems that "
+            "the compiled code evaluates f32 `*`, `+`, `min`, `max`, `as uN` as IEEE-754 binary32 operations "
+            "(ConvF32.lean; no FMA contraction, no flush-to-zero), which the S/U cases compare on bit patterns; "
+            "std's write_all contract.",
     "profiles": ["release", "checked"],
     "level": "proof",
     "explanation": "level=proof refers to the modelled part (size rule, writer faults, quantiser ranges, loop bounds, "
@@ -43,7 +55,12 @@ CFG = {
             "U8/U16 inputs all-0 / all-max / random; (e) the 12 block formats at Normal/High (4x4, 9x6) and "
             "Unreasonable (<= 8x4) on every content class, and 4 sizes that the parallel encoder splits, with "
             "faults; (f) Q cases: 1x1 RGBA f32 pixels of special values through 14 packed formats, the encoded "
-            "word compared with the quantiser models; (g) PRNG over the whole quantifier. Every f32 case with "
+            "word compared with the quantiser models; (f2) S cases: bit patterns of a 1x1 pixel into R9G9B9E5 against "
+            "the bit-level model of rgb9995f::from_f32 - 12^3 + 2*30^2 special triples, every exponent field "
+            "96..144 x 15 boundary fractions x 10 partner channels, 12 000 (thorough 400 000) biased PRNG triples; "
+            "(f3) U cases: bit patterns into 6 packed UNORM/SNORM8 formats against the bit-level quantisers - 28 "
+            "specials, the rounding boundary (k+0.5)/MAX +-2 ulp of every code k, 2 500 (thorough 60 000) PRNG "
+            "pixels per format; (g) PRNG over the whole quantifier. Every f32 case with "
             "non-ordinary content is run a second time with ordinary content and must give the same kind and "
             "length. non-trivial = result ok / err Io / px (bytes produced or a fault propagated); distinct = "
             "distinct case lines.",
@@ -57,7 +74,10 @@ CFG = {
     ],
     "trusted_base": ["models: lean/DdsModel/DdsModel/EncTotal.lean (encode/mod.rs get_encoders, supports_size; "
                      "encoder.rs size multiple; bi_planar.rs size check; color/formats.rs from_f32 quantisers; "
-                     "bcn_util.rs refine_endpoints loop; bc.rs max_iter tables), EncLen.lean (writer loops); not "
+                     "bcn_util.rs refine_endpoints loop; bc.rs max_iter tables; namespaces SharedExp and QuantBits: "
+                     "rgb9995f::from_f32, util::clamp_0_max, util::two_powi, n1..n10::from_f32, s8::from_uf32 and six "
+                     "universal! closures of uncompressed.rs on bit patterns), ConvF32.lean (software binary32), "
+                     "EncLen.lean (writer loops); not "
                      "modelled: float bodies of bc1.rs/bc4.rs/bc7.rs/bcn_util.rs, dithering, pixel readers"],
 }
 
